@@ -256,6 +256,31 @@ def enum_spines(col, ks, stride, offset, max_len):
     col.label("spine-family")
 
 
+def enum_family(col, part, nparts, max_len):
+    """match / nfa_match / starts_with over the nullable-repetition family (patterns of up to 7 nodes)."""
+    m = _entry_points()
+    seqs = list(P.sequences(P.ATOMS, max_len))
+    for i, tree in enumerate(P.nullable_repetition_family()):
+        if i % nparts != part:
+            continue
+        reset_state_counter(1)
+        r = call_sut(P.to_expr, tree)
+        if r[0] == "exc":
+            col.fail({"tree": P.to_json(tree), "seq": ""}, f"build:{r[1]}", r[2])
+            continue
+        try:
+            with watchdog(120), BuildMemo():
+                for s in seqs:
+                    res = check_pair(tree, r[1], s, m)
+                    if res:
+                        col.fail({"tree": P.to_json(tree), "seq": "".join(s)}, res[0], res[1])
+                        break
+        except CaseTimeout:
+            col.fail({"tree": P.to_json(tree), "seq": ""}, "hang", f"pattern {P.show(tree)}: no result within 120 s")
+        col.bulk(len(seqs), len(seqs))
+    col.label("nullable-repetition-family")
+
+
 def gen_random(col, seed, n):
     strat = st.tuples(P.tree_strategy(8), st.text(alphabet="abc", max_size=20), st.sampled_from([1, 1, 1, 2, 5, 10, 11, 99, 100, 1234]))
 
@@ -284,6 +309,8 @@ def plan(tier, seed):
             jobs.append(("enum_spines", {"ks": [2, 3], "stride": 32, "offset": o, "max_len": 6}))
         for o in range(16):
             jobs.append(("enum_spines", {"ks": [4], "stride": 16 * 40, "offset": o, "max_len": 5}))
+    for p in range(4):
+        jobs.append(("enum_family", {"part": p, "nparts": 4, "max_len": 4 if tier == "quick" else 6}))
     n = 3000 if tier == "quick" else 60000
     for i in range(4):
         jobs.append(("gen_random", {"seed": shard_seed(seed, ID, i), "n": n // 4}))
